@@ -37,6 +37,8 @@ def run(chk):
     rule_eval(chk)
     rule_cond_eval(chk)
     rule_defined(chk)
+    import c08
+    c08.rule_defined_eval(chk, prefix="C11.defined/model")
 
 
 # ------------------------------------------------------------------ fsm
